@@ -1,7 +1,7 @@
 (* Laws of the basis transformations of operators (S1 . A . S) and of four-index tensors (the two
    passes of SuperOperator/RelaxationTensor.transform): they compose, are undone by the inverse
    matrix, keep traces, and make the application of a tensor to an operator basis independent. *)
-From Coq Require Import Arith List Lia.
+From Coq Require Import ZArith Arith List Lia.
 From QV Require Import Base.Alg Base.Sums Base.Mat Base.Tens.
 Import ListNotations.
 
